@@ -62,6 +62,10 @@ class C10(core.Check):
         band = fr(cur) * fr('15/100000')
         pts = [cur, float(fr(cur) + band), float(fr(cur) - band), float(fr(cur) + band * fr('1001/1000')),
                float(fr(cur) - band * fr('1001/1000')), float(fr(cur) + band / 2), cur * 1.01, cur * 0.99, cur * 2, cur / 2,
+               # just outside the band by 5e-5 of its width (7.5e-9 of the price ratio): far enough from the edge for the
+               # float comparison to be decided, close enough to tell "relative to the current price" from other readings
+               float(fr(cur) + band * fr('100005/100000')), float(fr(cur) - band * fr('100005/100000')),
+               float(fr(cur) + band * fr('99995/100000')), float(fr(cur) - band * fr('99995/100000')),
                round(cur * r.uniform(0.9, 1.1), 4), 0.0, -1.0]
         return pts
 
